@@ -57,7 +57,10 @@ def place(anchor, lean, planar, alloc):
     params = GEO + [("_memory", SZ)] + ([("alloc_result", SZ), ("_allocated_bytes", SZ)] if alloc else []) + \
              ([("i", SZ), ("plane_off", "std::ptrdiff_t")] if planar else []) + [("tmp", SZ), ("loc_row", "std::ptrdiff_t"), ("view_w", "std::ptrdiff_t"), ("view_h", "std::ptrdiff_t")]
     outs = (["_allocated_bytes", "_memory"] if alloc else []) + ["tmp"] + (["plane_off"] if planar else []) + ["loc_row", "view_w", "view_h"]
-    return Sym(IMG, anchor, lean, params, outputs=outs, subst=PLACE_SUB,
+    # since 42a1d3b allocate_ calls create_view(dimensions, tag) when no storage is needed: the callee's body is inlined textually
+    inl = [(r"create_view\(dimensions, std::%s_type\(\)\);" % ("true" if planar else "false"),
+            r"void create_view\(point_t const& dims, std::%s_type\)" % ("true" if planar else "false"), 0)] if alloc else []
+    return Sym(IMG, anchor, lean, params, outputs=outs, subst=PLACE_SUB, inline=inl,
                calls={"get_row_size_in_memunits": "row_size_in_memunits", "align": "align",
                       "total_allocated_size_in_bytes": "total_bytes_planar" if planar else "total_bytes_interleaved"},
                doc="%s, IsPlanar = %s: %s first pixel address `tmp`%s, the row size handed to the locator and the dimensions of _view" % (
